@@ -404,6 +404,48 @@ func emitRoutes(hF *ast.File, consts map[string]string, w func(string, ...interf
 	} else {
 		problem("addRawRoute not found")
 	}
+
+	// AddRoute / AddPreviewRoute: the only ways a caller outside NewHandler registers a route. A pattern that is
+	// not empty and does not begin with '/' is refused, then the route goes to addRawRoute under prefix + pattern
+	// (model: addRoutePattern / viaAddRoute; hypothesis of theorem served_resource_below_api).
+	for _, x := range [][2]string{{"AddRoute", "BasePath"}, {"AddPreviewRoute", "BasePreviewPath"}} {
+		want := "{ if len(r.Pattern) > 0 && r.Pattern[0] != '/' { return fmt.Errorf(\"route patterns must begin with a '/' %s\", r.Pattern) } r.Pattern = " + x[1] + " + r.Pattern return h.addRawRoute(r) }"
+		if fd := funcDecl(hF, x[0], "*Handler"); fd == nil {
+			problem("%s not found", x[0])
+		} else if got := src(fd.Body); got != want {
+			problem("%s: pattern test / prefixing not recognised: %s", x[0], got)
+		}
+	}
+	// … and addRawRoute(s) is called from nowhere else than those two, addRawRoutes and NewHandler
+	pkgDir := filepath.Dir(fset.Position(hF.Pos()).Filename)
+	if ents, err := os.ReadDir(pkgDir); err == nil {
+		for _, e := range ents {
+			n := e.Name()
+			if e.IsDir() || !strings.HasSuffix(n, ".go") || strings.HasSuffix(n, "_test.go") {
+				continue
+			}
+			f, err := parser.ParseFile(token.NewFileSet(), filepath.Join(pkgDir, n), nil, 0)
+			if err != nil {
+				problem("cannot parse %s: %v", n, err)
+				continue
+			}
+			for _, d := range f.Decls {
+				fd, ok := d.(*ast.FuncDecl)
+				if !ok || fd.Body == nil {
+					continue
+				}
+				allowed := n == "handler.go" && (fd.Name.Name == "AddRoute" || fd.Name.Name == "AddPreviewRoute" || fd.Name.Name == "addRawRoutes" || fd.Name.Name == "NewHandler")
+				ast.Inspect(fd.Body, func(x ast.Node) bool {
+					if se, ok := x.(*ast.SelectorExpr); ok && (se.Sel.Name == "addRawRoute" || se.Sel.Name == "addRawRoutes") && !allowed {
+						problem("addRawRoute(s) is called from %s in %s: a route may be registered without the pattern test of AddRoute", fd.Name.Name, n)
+					}
+					return true
+				})
+			}
+		}
+	} else {
+		problem("cannot list %s: %v", pkgDir, err)
+	}
 }
 
 func main() {
